@@ -30,27 +30,66 @@ def has_quantifier(fs):
   return any(walk(f) for f in fs)
 
 
-def prove(assumptions, goal, use_theory=True, timeout_ms=None, extra_axioms=()):
-  """valid(assumptions => goal)?  -> Result(status in discharged/refuted/unknown)"""
+def prove(assumptions, goal, use_theory=True, timeout_ms=None, extra_axioms=(), axioms_only=None):
+  """conjunctive goals are split into one query per conjunct (smaller, more stable queries)"""
+  if z3.is_and(goal) and len(goal.children()) > 1:
+    total = 0.0
+    axs = set()
+    res = None
+    for g in goal.children():
+      r = prove(assumptions, g, use_theory, timeout_ms, extra_axioms, axioms_only)
+      total += r.seconds
+      axs |= set(r.axioms)
+      if r.status != 'discharged':
+        r.seconds = total
+        return r
+      res = r
+    res.seconds = total
+    res.axioms = sorted(axs)
+    return res
+  return prove1(assumptions, goal, use_theory, timeout_ms, extra_axioms, axioms_only)
+
+
+def prove1(assumptions, goal, use_theory=True, timeout_ms=None, extra_axioms=(), axioms_only=None):
+  """valid(assumptions => goal)?  -> Result(status in discharged/refuted/unknown).
+  Portfolio: the axioms whose head symbols occur in the query itself first (small query), then the closure
+  (axioms reachable through other axioms), each with two random seeds; first definite answer wins.  `sat` is
+  only reported from the largest axiom set (a model of a subset of the axioms refutes nothing)."""
   t0 = time.time()
-  s = z3.Solver()
-  s.set(timeout=timeout_ms or Z3_TIMEOUT_MS)
-  hyps = list(assumptions) + list(distinct_axioms()) + list(extra_axioms)
-  axs = []
+  base = list(assumptions) + list(distinct_axioms()) + list(extra_axioms)
+  budget = timeout_ms or Z3_TIMEOUT_MS
   if use_theory:
-    axs = theory.select_axioms(hyps + [goal])
-    hyps += [a.formula for a in axs]
-  s.add(*hyps)
-  s.add(z3.Not(goal))
-  r = s.check()
-  dt = time.time() - t0
-  res = None
-  if r == z3.unsat:
-    res = Result('discharged', 'z3', dt)
-  elif r == z3.sat:
-    res = Result('refuted', 'z3', dt, model=s.model(), reason='sat' + (' (with quantified axioms: model is a candidate)' if axs else ''))
+    small = theory.select_axioms(base + [goal], closure=False)
+    full = theory.select_axioms(base + [goal], closure=True)
   else:
-    res = Result('unknown', 'z3', dt, reason=s.reason_unknown())
+    small = full = []
+  if axioms_only is not None:
+    small = full = [a for a in theory.AXIOMS if a.name in axioms_only or axioms_only == 'ieee' and a.ieee]
+  plans = [(full, 0, budget // 8), (small, 0, budget // 8)] if len(small) != len(full) else [(full, 0, budget // 4)]
+  plans += [(full, 7, budget // 4), (full, 11, budget // 2)]
+  last = None
+  for axs, seed, tmo in plans:
+    s = z3.Solver()
+    s.set(timeout=max(500, tmo))
+    if seed:
+      s.set('random_seed', seed)
+      s.set('smt.random_seed', seed) if False else None
+    s.add(*base)
+    s.add(*[a.formula for a in axs])
+    s.add(z3.Not(goal))
+    r = s.check()
+    last = (s, axs, r)
+    if r == z3.unsat:
+      res = Result('discharged', 'z3', time.time() - t0)
+      break
+    if r == z3.sat and axs is full:
+      res = Result('refuted', 'z3', time.time() - t0, model=s.model(),
+                   reason='sat' + (' (with quantified axioms: model is a candidate)' if axs else ''))
+      break
+  else:
+    s, axs, r = last
+    res = Result('unknown', 'z3', time.time() - t0, reason=s.reason_unknown() if r == z3.unknown else 'sat on a subset of the axioms only')
+  s, axs, r = last
   res.axioms = [a.name for a in axs]
   res.smt2 = None
   res._solver = s
